@@ -84,7 +84,9 @@ def gen_case(r, index, tier):
                        "byte": r.randint(1, 400)})
     return {"engine": "c10", "die": die, "net": nl, "refine": refine, "threshold": r.choice([0.6, 0.7, 0.8, 0.9, 0.95, 0.99]),
             "alpha": r.choice([0.0, 0.1, 0.3, 0.5, 0.9, 1.0]), "max_iter": r.randint(1, 3), "faults": faults, "area_total": tot,
-            "free": free}
+            "free": free,
+            "second": {"threshold": r.choice([0.7, 0.9, 0.95]), "alpha": r.choice([0.0, 0.5, 1.0]), "edit": r.chance(0.6)}
+            if r.chance(0.3) else None}
 
 
 def units(case):
@@ -134,6 +136,92 @@ def _norm(nl):
     return dict(nl, modules=mods)
 
 
+def _snap(net):
+    snap = {}
+    for m in net.modules:
+        ar = sum(r.area for r in m.rectangles) or 1.0
+        cx = sum(r.center.x * r.area for r in m.rectangles) / ar if m.rectangles else None
+        cy = sum(r.center.y * r.area for r in m.rectangles) / ar if m.rectangles else None
+        snap[m.name] = {"kind": sem.module_kind(m), "flip": m.flip, "rects": [sem.rect_spec(r) for r in m.rectangles],
+                        "offsets": [(r.center.x - cx, r.center.y - cy, r.shape.w, r.shape.h) for r in m.rectangles] if m.rectangles else []}
+    return snap
+
+
+def _judge(ret, snap, W, H, size, key, viol):
+    """The oracle of C10 on one returned (die, allocation).  Returns the list of cells."""
+    rdie, alloc = ret
+
+    def v(clause, detail):
+        viol.append({"property": "C10", "clause": clause, "key": dict(key), "detail": detail})
+
+    cells = [(a.rect.center.x - a.rect.shape.w / 2, a.rect.center.y - a.rect.shape.h / 2,
+              a.rect.center.x + a.rect.shape.w / 2, a.rect.center.y + a.rect.shape.h / 2, a) for a in alloc.allocations]
+    tol = 1e-9 * size
+    for c in cells:
+        if c[0] < -tol or c[1] < -tol or c[2] > W + tol or c[3] > H + tol:
+            v("cell of the returned allocation lies outside the die", {"cell": c[:4], "die": [W, H]})
+            break
+    bad = False
+    for i in range(len(cells)):
+        for j in range(i + 1, len(cells)):
+            ow = min(cells[i][2], cells[j][2]) - max(cells[i][0], cells[j][0])
+            oh = min(cells[i][3], cells[j][3]) - max(cells[i][1], cells[j][1])
+            if ow > tol and oh > tol:
+                v("cells of the returned allocation overlap", {"a": cells[i][:4], "b": cells[j][:4]})
+                bad = True
+                break
+        if bad:
+            break
+    for c in cells:
+        a = c[4]
+        if any((not math.isfinite(x)) or x < -1e-6 or x > 1 + 1e-6 for x in a.alloc.values()):
+            v("occupancy ratio outside [0, 1]", {"cell": c[:4], "alloc": a.alloc})
+            break
+        if sum(a.alloc.values()) > 1 + 1e-4:
+            v("cell occupied beyond 100%", {"cell": c[:4], "alloc": a.alloc, "total": sum(a.alloc.values())})
+            break
+    for m in rdie.netlist.modules:
+        s = snap[m.name]
+        if m.center is None or not (math.isfinite(m.center.x) and math.isfinite(m.center.y)) or \
+                m.center.x < -1e-6 * size or m.center.x > W + 1e-6 * size or m.center.y < -1e-6 * size or m.center.y > H + 1e-6 * size:
+            v("module centre outside the die", {"module": m.name, "centre": None if m.center is None else [m.center.x, m.center.y]})
+            break
+        now = [sem.rect_spec(r) for r in m.rectangles]
+        if s["kind"] == "fixed":
+            if canon(now) != canon(s["rects"]):
+                v("fixed module's rectangles changed", {"module": m.name, "before": s["rects"], "after": now})
+                break
+            for rc in now:
+                box = (rc[0] - rc[2] / 2, rc[1] - rc[3] / 2, rc[0] + rc[2] / 2, rc[1] + rc[3] / 2)
+                own = [c for c in cells if all(abs(c[k] - box[k]) <= tol for k in range(4))]
+                if len(own) != 1:
+                    v("fixed module does not own exactly its cells", {"module": m.name, "rect": rc, "cells": len(own)})
+                    break
+                al = own[0][4].alloc
+                if abs(al.get(m.name, 0.0) - 1.0) > 1e-6 or any(x > 1e-4 for k_, x in al.items() if k_ != m.name):
+                    v("fixed module does not fully own its cell", {"module": m.name, "alloc": al})
+                    break
+        elif s["kind"] == "hard":
+            if len(now) != len(s["rects"]):
+                v("hard module reshaped", {"module": m.name})
+                break
+            ar = sum(r[2] * r[3] for r in now)
+            cx = sum(r[0] * r[2] * r[3] for r in now) / ar
+            cy = sum(r[1] * r[2] * r[3] for r in now) / ar
+            offs = [(r[0] - cx, r[1] - cy, r[2], r[3]) for r in now]
+            ok = False
+            for sx in ((1, -1) if s["flip"] else (1,)):
+                for sy in ((1, -1) if s["flip"] else (1,)):
+                    if all(abs(o[0] - sx * b[0]) <= 1e-9 * size and abs(o[1] - sy * b[1]) <= 1e-9 * size and o[2] == b[2] and o[3] == b[3]
+                           for o, b in zip(offs, s["offsets"])):
+                        ok = True
+            if not ok:
+                v("movable hard module reshaped (not a translation or permitted mirror)",
+                  {"module": m.name, "flip": s["flip"], "before": s["offsets"], "after": offs})
+                break
+    return cells
+
+
 def run_case(case):
     OPT, D, N, GK = _m["OPT"], _m["D"], _m["N"], _m["GK"]
     viol, hist, probes, fired, configured = [], [], {}, {}, {}
@@ -160,13 +248,7 @@ def run_case(case):
             return _result(case, viol, hist, probes, fired, configured, False, "rejected", solver)
         W, H = die.width, die.height
         size = max(W, H)
-        snap = {}
-        for m in net.modules:
-            ar = sum(r.area for r in m.rectangles) or 1.0
-            cx = sum(r.center.x * r.area for r in m.rectangles) / ar if m.rectangles else None
-            cy = sum(r.center.y * r.area for r in m.rectangles) / ar if m.rectangles else None
-            snap[m.name] = {"kind": sem.module_kind(m), "flip": m.flip, "rects": [sem.rect_spec(r) for r in m.rectangles],
-                            "offsets": [(r.center.x - cx, r.center.y - cy, r.shape.w, r.shape.h) for r in m.rectangles] if m.rectangles else []}
+        snap = _snap(net)
         try:
             ret = OPT.glbfloor(die, case["threshold"], case["alpha"], max_iter=case["max_iter"], verbose=False, plotting_options=None)
             outcome = "returned"
@@ -179,78 +261,38 @@ def run_case(case):
             fired[f["kind"]] = fired.get(f["kind"], 0) + 1
         faulted = bool(solver.fired)
         if ret is not None:
-            rdie, alloc = ret
             key = {"after_fault": solver.fired[0]["kind"] if faulted else "none"}
-
-            def v(clause, detail):
-                viol.append({"property": "C10", "clause": clause, "key": dict(key), "detail": detail})
-
-            cells = [(a.rect.center.x - a.rect.shape.w / 2, a.rect.center.y - a.rect.shape.h / 2,
-                      a.rect.center.x + a.rect.shape.w / 2, a.rect.center.y + a.rect.shape.h / 2, a) for a in alloc.allocations]
-            tol = 1e-9 * size
-            for c in cells:
-                if c[0] < -tol or c[1] < -tol or c[2] > W + tol or c[3] > H + tol:
-                    v("cell of the returned allocation lies outside the die", {"cell": c[:4], "die": [W, H]})
-                    break
-            bad = False
-            for i in range(len(cells)):
-                for j in range(i + 1, len(cells)):
-                    ow = min(cells[i][2], cells[j][2]) - max(cells[i][0], cells[j][0])
-                    oh = min(cells[i][3], cells[j][3]) - max(cells[i][1], cells[j][1])
-                    if ow > tol and oh > tol:
-                        v("cells of the returned allocation overlap", {"a": cells[i][:4], "b": cells[j][:4]})
-                        bad = True
-                        break
-                if bad:
-                    break
-            for c in cells:
-                a = c[4]
-                if any((not math.isfinite(x)) or x < -1e-6 or x > 1 + 1e-6 for x in a.alloc.values()):
-                    v("occupancy ratio outside [0, 1]", {"cell": c[:4], "alloc": a.alloc})
-                    break
-                if sum(a.alloc.values()) > 1 + 1e-4:
-                    v("cell occupied beyond 100%", {"cell": c[:4], "alloc": a.alloc, "total": sum(a.alloc.values())})
-                    break
-            for m in rdie.netlist.modules:
-                s = snap[m.name]
-                if m.center is None or not (math.isfinite(m.center.x) and math.isfinite(m.center.y)) or \
-                        m.center.x < -1e-6 * size or m.center.x > W + 1e-6 * size or m.center.y < -1e-6 * size or m.center.y > H + 1e-6 * size:
-                    v("module centre outside the die", {"module": m.name, "centre": None if m.center is None else [m.center.x, m.center.y]})
-                    break
-                now = [sem.rect_spec(r) for r in m.rectangles]
-                if s["kind"] == "fixed":
-                    if canon(now) != canon(s["rects"]):
-                        v("fixed module's rectangles changed", {"module": m.name, "before": s["rects"], "after": now})
-                        break
-                    for rc in now:
-                        box = (rc[0] - rc[2] / 2, rc[1] - rc[3] / 2, rc[0] + rc[2] / 2, rc[1] + rc[3] / 2)
-                        own = [c for c in cells if all(abs(c[k] - box[k]) <= tol for k in range(4))]
-                        if len(own) != 1:
-                            v("fixed module does not own exactly its cells", {"module": m.name, "rect": rc, "cells": len(own)})
-                            break
-                        al = own[0][4].alloc
-                        if abs(al.get(m.name, 0.0) - 1.0) > 1e-6 or any(x > 1e-4 for k_, x in al.items() if k_ != m.name):
-                            v("fixed module does not fully own its cell", {"module": m.name, "alloc": al})
-                            break
-                elif s["kind"] == "hard":
-                    if len(now) != len(s["rects"]):
-                        v("hard module reshaped", {"module": m.name})
-                        break
-                    ar = sum(r[2] * r[3] for r in now)
-                    cx = sum(r[0] * r[2] * r[3] for r in now) / ar
-                    cy = sum(r[1] * r[2] * r[3] for r in now) / ar
-                    offs = [(r[0] - cx, r[1] - cy, r[2], r[3]) for r in now]
-                    ok = False
-                    for sx in ((1, -1) if s["flip"] else (1,)):
-                        for sy in ((1, -1) if s["flip"] else (1,)):
-                            if all(abs(o[0] - sx * b[0]) <= 1e-9 * size and abs(o[1] - sy * b[1]) <= 1e-9 * size and o[2] == b[2] and o[3] == b[3]
-                                   for o, b in zip(offs, s["offsets"])):
-                                ok = True
-                    if not ok:
-                        v("movable hard module reshaped (not a translation or permitted mirror)",
-                          {"module": m.name, "flip": s["flip"], "before": s["offsets"], "after": offs})
-                        break
+            cells = _judge(ret, snap, W, H, size, key, viol)
+            rdie = ret[0]
             hist.append({"out": "returned", "cells": len(cells), "solves": solver.nsolve, "faults": [f["kind"] for f in solver.fired]})
+            sec = case.get("second")
+            if sec and not faulted and not viol:
+                # the stage is run again on the SAME objects (other parameters); before that the user may have slid a
+                # branch of a hard module along its trunk - the second answer must be judged on what was handed in then
+                edited = False
+                if sec.get("edit"):
+                    for m in rdie.netlist.modules:
+                        if m.is_hard and not m.is_fixed and m.num_rectangles >= 2:
+                            t, b = m.rectangles[0], m.rectangles[1]
+                            d = min(t.shape.w, t.shape.h) / 8.0
+                            if abs(b.center.x - t.center.x) > abs(b.center.y - t.center.y):
+                                b.center.y += d      # east/west branch: slide vertically
+                            else:
+                                b.center.x += d      # north/south branch: slide horizontally
+                            edited = True
+                            break
+                snap2 = _snap(rdie.netlist)
+                try:
+                    ret2 = OPT.glbfloor(rdie, sec["threshold"], sec["alpha"], max_iter=1, verbose=False, plotting_options=None)
+                except BaseException as e:  # noqa
+                    if isinstance(e, (KeyboardInterrupt, SystemExit)):
+                        raise
+                    ret2 = None
+                    hist.append({"out": "second call raised " + type(e).__name__})
+                if ret2 is not None:
+                    _judge(ret2, snap2, W, H, size, {"after_fault": "none", "call": "second"}, viol)
+                    hist.append({"out": "second call returned", "edited": edited})
+                    probes["second_call_on_same_objects" + ("_after_edit" if edited else "")] = 1
             if faulted:
                 probes["returned_despite_fault_" + solver.fired[0]["kind"]] = 1
             if any(s["kind"] == "hard" and len(s["rects"]) > 1 for s in snap.values()):
